@@ -4,7 +4,7 @@ import lib
 from lib import zlit, vlist
 
 LEVEL = "proof"
-UNITS = ["GenAlloc"]
+UNITS = ["GenAlloc", "GenWrapper"]
 
 
 # ------------------------------------------------------------------ generator
@@ -199,28 +199,32 @@ def gen_entry(rng):
     documentation of those entry points says the allocator is asked -- and `entry` tells the driver how to ask."""
     how = rng.choice(["setitem", "wrapper", "pnr_wrapper"])
     if how == "setitem":
-        c = gen_case(rng)
-        while c["kind"] != "valid":
+        if rng.random() < 0.5:
+            c = gen_tight(rng)              # inside the completeness guarantee: a refusal is a violation
+        else:
             c = gen_case(rng)
+            while c["kind"] != "valid":
+                c = gen_case(rng)
         m = c["machine"]
         live = [[x, y] for x in range(m["w"]) for y in range(m["h"]) if [x, y] not in m["dead"]]
         final = {tuple(xy): rs for xy, rs in m["exc"]}
-        hist = []
+        per_chip = []
         for xy in live:
-            k = rng.random()
-            if k < 0.5:
-                continue
-            if k < 0.75 or tuple(xy) in final:      # earlier, different assignments; the last one wins
-                for _ in range(rng.randint(1, 2)):
-                    hist.append([xy, [[r, max(0, q + rng.choice([-3, -1, 2, 5]))] for r, q in m["res"]]])
-                if tuple(xy) not in final:          # ... then the chip is set back to what every chip has
-                    hist.append([xy, [list(rq) for rq in m["res"]]])
-        for xy, rs in m["exc"]:
-            hist.append([xy, rs])
-        rng.shuffle(hist)
-        # keep, per chip, the final assignment last
-        tail = [[list(xy), rs] for xy, rs in final.items()] + [h for h in hist if h[1] == [list(rq) for rq in m["res"]] and tuple(h[0]) not in final]
-        hist = [h for h in hist if h not in tail] + tail
+            seq = []
+            earlier = [[xy, [[r, max(0, q + rng.choice([-3, -1, 2, 5]))] for r, q in m["res"]]]
+                       for _ in range(rng.choice([0, 1, 1, 2]))]
+            if tuple(xy) in final:                  # earlier assignments, then the final exception
+                seq = earlier + [[xy, final[tuple(xy)]]]
+            elif earlier and rng.random() < 0.7:    # an exception, then set back to what every chip has
+                seq = earlier + [[xy, [list(rq) for rq in m["res"]]]]
+            if seq:
+                per_chip.append(seq)
+        hist = []                                   # interleave the chips' sequences, keeping each chip's order
+        while per_chip:
+            seq = rng.choice(per_chip)
+            hist.append(seq.pop(0))
+            if not seq:
+                per_chip.remove(seq)
         c["entry"] = dict(how="setitem", history=hist)
         c["style"] = "entry-setitem"
         return c
@@ -285,18 +289,26 @@ def coq_case(c):
         zlit(m["w"]), zlit(m["h"]), pairs(m["res"]),
         vlist("(%s, %s)" % (chipl(xy), pairs(rs)) for xy, rs in m["exc"]),
         vlist(chipl(d) for d in m["dead"]))
-    cs = []
-    for k in c["constraints"]:
-        if k[0] == "reserve":
-            cs.append("CReserve %s (%s, %s) %s" % (zlit(k[1]), zlit(k[2]), zlit(k[3]),
-                                                  "None" if k[4] is None else "(Some %s)" % chipl(k[4])))
-        elif k[0] == "align":
-            cs.append("CAlign %s %s" % (zlit(k[1]), zlit(k[2])))
-        else:
-            cs.append("COther")
+    def conslist(spec):
+        cs = []
+        for k in spec:
+            if k[0] == "reserve":
+                cs.append("CReserve %s (%s, %s) %s" % (zlit(k[1]), zlit(k[2]), zlit(k[3]),
+                                                      "None" if k[4] is None else "(Some %s)" % chipl(k[4])))
+            elif k[0] == "align":
+                cs.append("CAlign %s %s" % (zlit(k[1]), zlit(k[2])))
+            else:
+                cs.append("COther")
+        return vlist(cs)
     vres = vlist("(%s, %s)" % (zlit(v), pairs(rq)) for v, rq in c["vres"])
     pl = vlist("(%s, %s)" % (zlit(v), chipl(xy)) for v, xy in c["placements"])
-    return "allocate %s %s %s %s" % (vres, mach, vlist(cs), pl)
+    e = c.get("entry")
+    if e and e["how"] == "wrapper":
+        # the model assembles the constraint list itself (Model/AllocWrapper.v over Generated/GenWrapper.v)
+        return "wrapper_allocate %s %s %s %s %s %s %s %s" % (
+            vres, mach, conslist(e["user"]), "true" if e["reserve_monitor"] else "false",
+            "true" if e["align_sdram"] else "false", zlit(e["core_resource"]), zlit(e["sdram_resource"]), pl)
+    return "allocate %s %s %s %s" % (vres, mach, conslist(c["constraints"]), pl)
 
 
 def canon_model(v):
@@ -440,7 +452,7 @@ def run(chk, args):
     if chk.model_ok:
         try:
             header = ("From Coq Require Import ZArith List. Import ListNotations. Open Scope Z_scope.\n"
-                      "Require Import Rig.Model.Base Rig.Model.Alloc.\n")
+                      "Require Import Rig.Model.Base Rig.Model.Alloc Rig.Model.AllocWrapper.\n")
             vals = chk.coq_eval(header, [coq_case(c) for c in cases])
             for c, o, v in zip(cases, outs, vals):
                 if c.get("no_model"):       # the entry point chooses the representation of the reservations: oracle only
